@@ -159,18 +159,23 @@ PROPS = {
         "jobs": {"quick": 2, "thorough": 2},
     },
     "C17": {
-        "verus_units": [],
+        "verus_units": ["placement"],
         "trusted": COMMON_TRUSTED + [
             "f64::powf replaced by an arbitrary f64 (no exact model in CBMC; over-approximation)",
             "fastrand::f64 replaced by an arbitrary value in [0,1): the sampler's random choices are universally quantified",
         ],
-        "assumptions": [],
-        "clauses_not_decided": [
-            "'over many draws favours heavier candidates' (statistical statement; no contract)",
-            "replication factors / candidate sets above the harness bound",
-            "the three diversity caps inside validate_selection and the select_nodes composition (HashMap entry API + async; see DESIGN)",
+        "assumptions": [
+            "GeographicLocation::distance_km is a deterministic, symmetric function of its two arguments (haversine over f64 trigonometry, uninterpreted): 'no two closer than 50 km' is a statement about the distance this function measures",
+            "WeightedSampler::sample_nodes returns k names taken from the candidates or an error: ASSUMED in the Verus unit (map-with-early-return collected into a Result + sort_by are outside the dialect), its text is pinned by hash and exercised by the native search only; the bounded Kani harnesses written for it (<= 4 candidates) did not finish within 900 s and are parked",
+            "await erasure of select_nodes: its only .await is the call of the strategy's own calculate_weights, an async fn without awaits that is verified in the same unit; sequential semantics",
+            "std contracts behind shims: HashMap / HashSet (vstd; key model assumed for NodeId, NetworkRegion), `*map.entry(k).or_insert(0) += 1`, sort_by is a permutation, into_iter().map().collect() keeps order, first(), ok_or / ok_or_else",
         ],
-        "explanation": "ReplicationFactor::new over all u8 triples, calculate_weight over all f64 inputs, sample_nodes structural postconditions (exactly k, distinct, drawn from candidates, error otherwise) for every random draw.",
+        "clauses_not_decided": [
+            "'over many draws favours heavier candidates' (statistical statement; no contract can state it)",
+            "'never a panic for zero, negative, infinite or NaN scores': decided for calculate_weight only (Kani, complete over all f64); sample_nodes is not decided; Verus checks arithmetic overflow / index bounds of the extracted text but not panics inside the assumed callees",
+            "the orchestrator (src/placement/orchestrator.rs) and other PlacementStrategy implementations",
+        ],
+        "explanation": "Verus proves, on the extracted text, for candidate sets, metadata maps and selections of ANY size: DiversityEnforcer::validate_selection accepts only selections in which no two nodes are closer than half the configured distance, no region holds more than max_nodes_per_region and no autonomous system more than max_nodes_per_asn entries (loop invariants over the pair loop and the two tally maps); DiversityEnforcer::new sets 100 km / 2 / 3; calculate_weights names only remaining candidates; select_nodes (await-erased) returns either an error or a decision naming exactly replication_factor nodes, pairwise distinct, all among the supplied candidates, satisfying the three diversity constraints with the metadata the caller supplied. Kani: calculate_weight complete over f64, ReplicationFactor::new complete.",
         "jobs": {"quick": 6, "thorough": 6},
     },
 }
